@@ -42,6 +42,7 @@ import (
 	"strconv"
 	"strings"
 	"sync"
+	"sync/atomic"
 	"time"
 
 	"verifharness/vutil"
@@ -114,11 +115,16 @@ func doOutputFile(c *cache.Cache, out cache.OutputID) (r callRes) {
 	guard(&r, func() { r.file = c.OutputFile(out) })
 	return
 }
+
+var putSeq int64
+
 func doPut(c *cache.Cache, id cache.ActionID, data []byte, via string) (r callRes) {
 	guard(&r, func() {
 		if via == "putbytes" {
 			r.err = c.PutBytes(id, data)
 			r.out, r.size = sha256.Sum256(data), int64(len(data))
+		} else if atomic.AddInt64(&putSeq, 1)%2 == 0 {
+			r.out, r.size, r.err = c.PutNoVerify(id, bytes.NewReader(data)) // same promise as Put; they take turns
 		} else {
 			r.out, r.size, r.err = c.Put(id, bytes.NewReader(data))
 		}
@@ -932,11 +938,22 @@ func runFuzz(n int, work, tracePath, outPath string) {
 		if err := os.WriteFile(w.idx(id), e, 0o666); err != nil {
 			vutil.Fatalf("write entry: %v", err)
 		}
+		// a lookup that brings the whole process down (an allocation sized by the entry, say) cannot be caught by
+		// recover: the entry under test is left behind as a breadcrumb for the check to pick up and re-run alone
+		crumb := ""
+		if crumbDir != "" {
+			crumb = filepath.Join(crumbDir, fmt.Sprintf("w%02d.json", w.n))
+			cb, _ := json.Marshal(map[string]interface{}{"id": idn, "e": vutil.Ints(e)})
+			os.WriteFile(crumb, cb, 0o666)
+		}
 		rg := doGet(w.c, id)
 		acc := soundGet(rg, ci)
 		soundBytes(doGetBytes(w.c, id), ci)
 		soundFile(doGetFile(w.c, id), ci)
 		os.Remove(w.idx(id))
+		if crumb != "" {
+			os.Remove(crumb)
+		}
 		rec := fuzzRec{ID: idn, E: vutil.Ints(e), Acc: acc, Out: []int{}, Size: []int{}, Panic: rg.panicked != ""}
 		if acc {
 			rec.Out = nibbles(rg.entry.OutputID[:])
@@ -957,6 +974,36 @@ func runFuzz(n int, work, tracePath, outPath string) {
 	}
 	tw.Close()
 	res.Count("records", int64(n))
+	res.Write(outPath)
+}
+
+var crumbDir string
+
+// runOne performs the three lookups for one index entry (a breadcrumb of an earlier fuzz run) in a process of its own.
+func runOne(crumb, work, outPath string) {
+	b, err := os.ReadFile(crumb)
+	if err != nil {
+		vutil.Fatalf("%v", err)
+	}
+	var c struct {
+		ID int   `json:"id"`
+		E  []int `json:"e"`
+	}
+	if err := json.Unmarshal(b, &c); err != nil {
+		vutil.Fatalf("bad breadcrumb: %v", err)
+	}
+	w := newWorker(work, 0)
+	w.entryFixture()
+	id := actionID(fmt.Sprintf("i%d", c.ID))
+	e := vutil.Bytes(c.E)
+	if err := os.WriteFile(w.idx(id), e, 0o666); err != nil {
+		vutil.Fatalf("write entry: %v", err)
+	}
+	ci := ctxInfo{mode: "one", class: fmt.Sprintf("i%d %q", c.ID, e), input: map[string]interface{}{"index_file": string(e), "bytes": c.E, "id": fmt.Sprintf("i%d", c.ID)}}
+	soundGet(doGet(w.c, id), ci)
+	soundBytes(doGetBytes(w.c, id), ci)
+	soundFile(doGetFile(w.c, id), ci)
+	res.Extra["survived"] = true
 	res.Write(outPath)
 }
 
@@ -1067,6 +1114,7 @@ func main() {
 	out := flag.String("out", "", "result JSON")
 	trace := flag.String("trace", "", "fuzz: ndjson of records for TLC")
 	n := flag.Int("n", 1000, "fuzz: number of records")
+	flag.StringVar(&crumbDir, "crumbs", "", "fuzz: directory for the breadcrumbs of lookups in flight")
 	flag.Parse()
 	if *work == "" || *out == "" {
 		vutil.Fatalf("-work and -out are required")
@@ -1082,6 +1130,8 @@ func main() {
 		runEntries(*cases, *work, *out)
 	case "fuzz":
 		runFuzz(*n, *work, *trace, *out)
+	case "one":
+		runOne(*cases, *work, *out)
 	default:
 		vutil.Fatalf("unknown mode %q", *mode)
 	}
